@@ -110,9 +110,15 @@ Theorem slice_meets_spec_guarded : forall l s n, 0 <= s ->
 Proof. exact (fun l s n H => conj (slice_spec_from l s H) (slice_spec_count l s n H)). Qed.
 Print Assumptions slice_meets_spec_guarded.
 
-Theorem slice_refuted : exists l s, m_slice [VArr l; VInt s] = Panic /\ s_slice [VArr l; VInt s] = SOkArray.
+Theorem slice_refuted : exists l s, m_slice [VArr l; VInt s] = Panic /\ s_slice [VArr l; VInt s] = SVal (VArr l).
 Proof. exact StdArraysProofs.slice_refuted. Qed.
 Print Assumptions slice_refuted.
+
+Theorem slice_fx_negative_start_clips : forall l s n, s < 0 ->
+  m_slice_fx [VArr l; VInt s] = Ok (VArr l) /\
+  (0 < n -> m_slice_fx [VArr l; VInt s; VInt n] = Ok (VArr (firstn (Z.to_nat (s + n)) l))).
+Proof. exact StdArraysProofs.slice_fx_negative_start. Qed.
+Print Assumptions slice_fx_negative_start_clips.
 
 Theorem slice_fx_meets_spec : forall l s n,
   (exists r, m_slice_fx [VArr l; VInt s] = Ok (VArr r)) /\
